@@ -1202,8 +1202,79 @@ def p_gcp_zoom_res(kind, genc, M6, rx, ry):
 
 
 
+def p_crop_by_region(kind, genc, M6, box):
+    """gbox[region] for a region whose edges are NOT on pixel boundaries: the result is the block of
+    pixels the region touches inside the image - start floor(max(x0, 0)), stop ceil(min(x1, W)) of the exact
+    pixel bounding box (Fractions) - at the contract's location, CRS kept.  kind: how the region is given
+    ('geom-pix' Geometry in pixel coordinates / 'geom' world polygon / 'bbox' world BoundingBox / 'geobox'
+    a GeoBox whose grid is offset and scaled against gbox's), prefix 'gcp-' for a GCPGeoBox with exactly
+    affine control points M (fit = the affine map)"""
+    from affine import Affine
+    from odc.geo import geom
+    from odc.geo.geobox import GeoBox
+    gcp = kind.startswith("gcp-")
+    k = kind[4:] if gcp else kind
+    A0 = [F(v) for v in genc["affine"]]
+    g = mk_gcp(genc, M6, oracle="affine") if gcp else mk_gbox(genc)
+    T = m3_mul(m3([F(v) for v in M6]), m3(A0)) if gcp else m3(A0)       # pixel -> world
+    det = T[0][0] * T[1][1] - T[0][1] * T[1][0]
+    H, W = int(g.shape[0]), int(g.shape[1])
+    x0, y0, x1, y1 = (F(v) for v in box)
+    flatT = [v for row in T[:2] for v in row]
+    if det == 0 or not pow2(det) or not all_small(flatT + [v for row in m3_inv(T)[:2] for v in row]):
+        return True, "outside the exactness domain"
+    if gcp and not (pow2(F(M6[0]) * F(M6[4]) - F(M6[1]) * F(M6[3])) and all_small(inverse_exact([F(v) for v in M6]))):
+        return True, "outside the exactness domain"
+    if not (x0 < x1 and y0 < y1 and max(x0, 0) < min(x1, W) and max(y0, 0) < min(y1, H)):
+        return True, "outside the property's domain (region does not overlap the image)"
+    corners = [(x0, y0), (x0, y1), (x1, y1), (x1, y0)]
+    wc = [m3_app(T, c) for c in corners]
+    if not all_small([v for c in wc for v in c]):
+        return True, "outside the exactness domain"
+    crs = genc["crs"]
+    if k == "geom-pix":
+        region = geom.polygon([(float(a), float(b)) for a, b in corners + corners[:1]], None)
+    elif k == "geom":
+        if crs is None:
+            return True, "world geometry needs a CRS"
+        region = geom.polygon([(float(a), float(b)) for a, b in wc + wc[:1]], crs)
+    elif k == "bbox":
+        if crs is None or not ((T[0][1] == 0 and T[1][0] == 0) or (T[0][0] == 0 and T[1][1] == 0)):
+            return True, "a world BoundingBox is the image of a pixel box only on axis-parallel grids"
+        xs, ys = [c[0] for c in wc], [c[1] for c in wc]
+        region = geom.BoundingBox(float(min(xs)), float(min(ys)), float(max(xs)), float(max(ys)), crs)
+    elif k == "geobox":
+        if gcp and crs is None:
+            return True, "needs a CRS"
+        # region grid: origin at pixel (x0, y0) of gbox, pixels half as big, so that it ends at (x1, y1)
+        w2, h2 = (x1 - x0) * 2, (y1 - y0) * 2
+        if w2.denominator != 1 or h2.denominator != 1:
+            return True, "region size not representable by a half-pixel grid"
+        R = m3_mul(T, ((F(1, 2), F(0), x0), (F(0), F(1, 2), y0), (F(0), F(0), F(1))))
+        r6 = [R[0][0], R[0][1], R[0][2], R[1][0], R[1][1], R[1][2]]
+        if not all_small(r6):
+            return True, "outside the exactness domain"
+        region = GeoBox((int(h2), int(w2)), Affine(*[float(v) for v in r6]), crs)
+    else:
+        raise ValueError(kind)
+    got = g[region]
+    tx, ty = math.floor(max(x0, 0)), math.floor(max(y0, 0))
+    nx, ny = math.ceil(min(x1, W)) - tx, math.ceil(min(y1, H)) - ty
+    want = [A0[0], A0[1], A0[0] * tx + A0[1] * ty + A0[2], A0[3], A0[4], A0[3] * tx + A0[4] * ty + A0[5]]
+    msgs = []
+    if (int(got.shape[0]), int(got.shape[1])) != (ny, nx) or Aq(got) != want:
+        gs = (int(got.shape[0]), int(got.shape[1]))
+        msgs.append(f"region with pixel bounding box x {x0}..{x1}, y {y0}..{y1} in a {H}x{W} image: got a {gs[0]}x{gs[1]} "
+                    f"crop with view affine {[str(v) for v in Aq(got)]}; the pixels the region touches are rows {ty}..{ty + ny}, "
+                    f"columns {tx}..{tx + nx}: {ny}x{nx} with affine {[str(v) for v in want]}")
+    if tag_of(got.crs) != tag_of(g.crs) or (g.crs is None) != (got.crs is None):
+        msgs.append("crs changed")
+    return not msgs, "; ".join(msgs) if msgs else f"crop by region ok: {ny}x{nx} at ({tx},{ty})"
+
+
+
 PREDICATES = {"op": p_op, "roundtrip": p_roundtrip, "views": p_views, "rotate": p_rotate, "gcp": p_gcp, "seq": p_seq, "zoom_to_int": p_zoom_to_int,
-              "crop_by_geobox": p_crop_by_geobox, "gcp_zoom_res": p_gcp_zoom_res}
+              "crop_by_geobox": p_crop_by_geobox, "crop_by_region": p_crop_by_region, "gcp_zoom_res": p_gcp_zoom_res}
 
 
 def call_pred(name, args):
@@ -1223,6 +1294,8 @@ def call_pred(name, args):
         return p_zoom_to_int(args["kind"], args["geobox"], args.get("M"), args["k"])
     if name == "crop_by_geobox":
         return p_crop_by_geobox(args["geobox"], args["roi"])
+    if name == "crop_by_region":
+        return p_crop_by_region(args["kind"], args["geobox"], args.get("M"), args["box"])
     if name == "gcp_zoom_res":
         return p_gcp_zoom_res(args["kind"], args["geobox"], args["M"], args["rx"], args["ry"])
     raise ValueError(name)
@@ -1419,6 +1492,36 @@ def search(out, tier):
                 run("gcp_zoom_res", dict(args, kind="gcp"))
                 if mi < 3:
                     run("gcp_zoom_res", dict(args, kind="gcp-fit"))
+
+    # crop by a region whose edges are not on pixel boundaries: geometry / BoundingBox / GeoBox regions,
+    # GeoBox and GCPGeoBox, north-up / mirrored / south-up / quarter-turn grids, regions inside and sticking out
+    grids = [["2", "0", "-8", "0", "-2", "12"], ["-4", "0", "64", "0", "-2", "30"], ["1/2", "0", "3", "0", "1/2", "-4"],
+             ["0", "-2", "5", "2", "0", "1"], ["0", "4", "-20", "-4", "0", "8"], ["1", "1/2", "0", "0", "-1", "7"]]
+    gmaps = [["2", "0", "100", "0", "-2", "500"], ["0", "-2", "40", "-2", "0", "-24"], ["-1/2", "0", "3", "0", "1/4", "-4"]]
+    views = [["1", "0", "0", "0", "1", "0"], ["1", "0", "2", "0", "1", "1"], ["2", "0", "0", "0", "2", "0"]]
+    for gi in range(len(grids) + len(gmaps) * 2):
+        for ny, nx in [(10, 12), (1, 9), (7, 1)]:
+            gcp = gi >= len(grids)
+            if gcp:
+                e = {"shape": [ny, nx], "affine": views[(gi + ny) % 3], "crs": ["epsg:3857", "epsg:4326"][gi % 2]}
+                M = gmaps[(gi - len(grids)) % 3]
+            else:
+                e = {"shape": [ny, nx], "affine": grids[gi], "crs": [None, "epsg:3857", "epsg:4326"][(gi + nx) % 3]}
+                M = None
+            boxes = [(F(13, 5).limit_denominator(8), F(1, 4), F(37, 5).limit_denominator(8), F(3, 4))]
+            for _ in range(7 if tier == "quick" else 30):
+                ax = F(rng.randint(-8, 8 * nx), 8)
+                ay = F(rng.randint(-8, 8 * ny), 8)
+                bx = ax + F(rng.choice([1, 3, 5, 11, 18, 21, 37, 8 * nx]), 8)
+                by = ay + F(rng.choice([1, 2, 5, 7, 12, 19, 27, 8 * ny]), 8)
+                boxes.append((ax, ay, bx, by))
+            for (ax, ay, bx, by) in boxes:
+                for k in ("geom-pix", "geom", "bbox", "geobox"):
+                    bb = (ax, ay, bx, by)
+                    if k == "geobox":       # sizes must be multiples of half a pixel
+                        bb = (ax, ay, ax + F(math.ceil((bx - ax) * 2), 2), ay + F(math.ceil((by - ay) * 2), 2))
+                    run("crop_by_region", {"kind": ("gcp-" if gcp else "") + k, "geobox": e, "M": M, "box": [fs(v) for v in bb]},
+                        keysuffix=":" + ("gcp-" if gcp else "") + k)
 
 
 # ---------------------------------------------------------------- entry points
